@@ -35,7 +35,11 @@ RULE = ("sealed trees (a quarter of them flat folders), 1-3 generations with one
         "directory hashes vs an independent evaluation on the current tree. Non-trivial: the scenario contains a mutation.")
 # recorded inputs that run first on every run (known finding: root history without directory hashes)
 CORPUS = [{"tree": {"Ab": {"d": {"k.txt": {"f": "6b"}}}}, "steps": [{"op": "create", "root": "Ab", "fmts": ["xxh64"]}, {"op": "create", "fmts": ["md5"], "n": True},
-                                                                  {"op": "add", "path": "Ab/x", "data": "885a"}, {"op": "verifydh"}]}]
+                                                                  {"op": "add", "path": "Ab/x", "data": "885a"}, {"op": "verifydh"}]},
+          # names that mean something to printf-style / str.format message formatting: the mismatch must be reported, not crash
+          {"tree": {"proxies 50%": {"d": {"a.bin": {"f": "0102"}, "%s {0}": {"d": {"b.bin": {"f": "03"}}}}}, "x%d": {"f": "04"}},
+           "steps": [{"op": "create", "fmts": ["md5"]}, {"op": "set", "path": "proxies 50%/%s {0}/b.bin", "data": "ff"}, {"op": "verifydh"}, {"op": "verify"}, {"op": "diff"},
+                     {"op": "delete", "path": "x%d"}, {"op": "verifydh"}, {"op": "verify"}, {"op": "create", "fmts": ["md5"]}]}]
 check, replay = make("C09", oracles.oracle_c09, scenario, 70, 2000, RULE,
                      corpus_defects=[defects.d02_c09_flat_root_change, defects.d03_c09_mixed_format_child, defects.d04_c09_no_dirhash_generation],
                      nontrivial=lambda scn, obs: any(s["op"] in ("set", "rename", "add", "delete") for s in scn["steps"]), corpus=CORPUS)
